@@ -7,7 +7,7 @@
 //	p.*  pipeline ops executed directly on the real command pipelines of three real stores
 //	     (verif accessors of raftstore/store): p.next p.reg p.apply p.poll p.rm p.state
 //	c.*  cluster ops on the real 3-store raft cluster of kit.go: c.campaign c.pump c.deliver
-//	     c.drop c.dup c.tick c.iso c.heal c.propose c.read c.probe c.wait c.restart, all answering "ok", and
+//	     c.drop c.dup c.tick c.iso c.heal c.propose c.read c.probe c.wait c.restart c.hold c.release c.elect c.proposeL, all answering "ok", and
 //	     c.verdict, which answers with what the real code did at every pipeline-level event
 //	     since the previous verdict (proposal ids drawn, waiters registered, entries applied on
 //	     each store, results handed to waiters, leader checks, reads) followed by the verdicts
@@ -318,6 +318,33 @@ func (e *engine) exec1(k *kit, ds *directState, f []string) (res string) {
 			return "bad-op"
 		}
 		k.restart(s)
+		return "ok"
+	case "c.hold": // c.hold from to : delay every message from store `from` to store `to`
+		a, b := arg(f, 1), arg(f, 2)
+		if !validStore(a) || !validStore(b) {
+			return "bad-op"
+		}
+		k.net.mu.Lock()
+		k.net.hold[a][b] = true
+		k.net.mu.Unlock()
+		return "ok"
+	case "c.release":
+		k.net.release()
+		return "ok"
+	case "c.elect": // c.elect region : run the clocks of the connected stores until one of them leads
+		if !validRegion(uint64(arg(f, 1))) {
+			return "bad-op"
+		}
+		k.elect(uint64(arg(f, 1)))
+		return "ok"
+	case "c.proposeL": // c.proposeL region : a write on whichever connected store leads the region
+		r := uint64(arg(f, 1))
+		if !validRegion(r) {
+			return "bad-op"
+		}
+		if l := k.connectedLeader(r); l != 0 {
+			k.start("propose", l, r, len(k.calls)+1)
+		}
 		return "ok"
 	case "c.wait": // let every outstanding read run into its answer (ReadCommand gives up after 3 s)
 		for _, c := range k.calls {
